@@ -86,6 +86,35 @@ class Repo(object):
                 self.mods[m] = ModuleInfo(m, p)
             except SyntaxError as e:
                 raise AnalysisError('cannot parse %s: %s' % (p, e))
+        self.register_signatures()
+
+    def register_signatures(self):
+        """Parameter lists of repository callables (unique by name), for positional/keyword canonicalisation."""
+        from . import sym
+        sigs, clash = {}, set()
+        for m in self.mods.values():
+            for q, f in m.funcs.items():
+                if '<locals>' in q:
+                    continue
+                a = f.args
+                if a.vararg or a.posonlyargs:
+                    continue
+                ps = [x.arg for x in a.args]
+                parts = q.split('.')
+                name = parts[-1]
+                if len(parts) == 2:
+                    ps = ps[1:] if ps and ps[0] in ('self', 'cls') else ps
+                    if name == '__init__':
+                        name = parts[0]
+                    elif name.startswith('__'):
+                        continue
+                if name in sigs and sigs[name] != ps:
+                    clash.add(name)
+                sigs[name] = ps
+        for c in clash:
+            sigs.pop(c, None)
+        sym.REPO_SIGS.clear()
+        sym.REPO_SIGS.update(sigs)
 
     def mod(self, name):
         return self.mods[name]
